@@ -12,7 +12,7 @@ CHECKS = {
              level_note="Trusts math/big and rapid. BigDec.Quo/QuoRoundUp are modelled as the code comments document them (quotient truncated at 36 digits, "
                         "then rounded to 18), not as rounding of the exact rational; Coins.IsAllGT of two empty sets and the IsAny* helpers are not judged "
                         "(contradictory doc comments)."),
-    "C42": c("coins", "TestC42", dict(checks=2000, timeout=400), dict(checks=8000, shards=14, timeout=1500),
+    "C42": c("coins", "TestC42", dict(checks=2000, timeout=400), dict(checks=4000, shards=14, timeout=1500),
              technique="property-based model comparison: generated block results indexed through AddBatch/Index, searches issued as rpc/core.TxSearch builds them, "
                        "compared page by page with a sorted list model",
              design_ref="DESIGN.md §7 C42",
